@@ -36,6 +36,12 @@ def check(run: Run) -> None:
     _COUNTS.clear()
     _check_function(run, ctx, fi, seen=set())
     _check_list_fields(run, m)
+    # a constant's value only changes the hash if the value reached the AST: the capture snapshot (shared with C04.R3/R6)
+    from ..report import Relabel
+    from .c04 import check_snapshot
+
+    run.rule("C20.R7", "captured values come from the callable's own closure and module globals, none filtered out: a constant that stays a bare name hashes the same for every value")
+    check_snapshot(Relabel(run, "C20.R7"), TermCtx(m, max_depth=2, opaque={"as_literal", "_parse_source_for_lambda"}), m, m.find_class("_rewrite_captured_vars", in_module="func_adl.util_ast"))
 
 
 LIST_FIELDS = {"args", "keywords", "elts", "keys", "values", "body", "orelse", "generators", "ifs", "comparators", "ops", "posonlyargs", "kwonlyargs", "kw_defaults", "defaults", "targets", "names", "decorator_list", "handlers", "finalbody", "items"}
